@@ -152,6 +152,9 @@ static bool unhex(const std::string& h, std::string& out) {
 // the concrete types
 enum class E32 : int32_t { A = 0, B = 1, N = -1 };
 enum E8u : uint8_t { E8_A = 0, E8_B = 200 };
+enum class E64 : int64_t { A = 0, Big = (1LL << 40), Neg = -(1LL << 40) };
+enum class EU64 : uint64_t { A = 0, Big = (1ULL << 63) };
+enum class E16 : int16_t { A = 0, N = -1 };
 
 #define AGG using is_agg = void;
 
@@ -241,6 +244,15 @@ struct A7 {  // containers and pointers inside an aggregate; large field numbers
   std::vector<A5> tv;
   BABYLON_SERIALIZABLE((m, 1)(st, 15)(l, 16)(arr, 300)(sp, 70000)(tv, 2));
   template <class F> void members(F&& f) { f(1, m); f(15, st); f(16, l); f(300, arr); f(70000, sp); f(2, tv); }
+};
+struct A10 {  // enums of every width, also as container elements
+  AGG E64 a {E64::A};
+  EU64 b {EU64::A};
+  E16 c {E16::A};
+  E8u d {E8_A};
+  std::vector<E64> v;
+  BABYLON_SERIALIZABLE((a, 1)(b, 2)(c, 3)(d, 4)(v, 5));
+  template <class F> void members(F&& f) { f(1, a); f(2, b); f(3, c); f(4, d); f(5, v); }
 };
 struct A8 {  // automatic numbering
   AGG int64_t a {0};
@@ -757,7 +769,9 @@ static const std::vector<std::pair<std::string, Entry>>& table() {
   static const std::vector<std::pair<std::string, Entry>> t = {
       {"bool", entry<bool>()}, {"i8", entry<int8_t>()}, {"i16", entry<int16_t>()}, {"i32", entry<int32_t>()},
       {"i64", entry<int64_t>()}, {"u8", entry<uint8_t>()}, {"u16", entry<uint16_t>()}, {"u32", entry<uint32_t>()},
-      {"u64", entry<uint64_t>()}, {"e32", entry<E32>()}, {"e8u", entry<E8u>()}, {"f32", entry<float>()},
+      {"u64", entry<uint64_t>()}, {"e32", entry<E32>()}, {"e8u", entry<E8u>()}, {"e64", entry<E64>()},
+      {"eu64", entry<EU64>()}, {"e16", entry<E16>()}, {"Veu64", entry<std::vector<EU64>>()}, {"A10", entry<A10>()},
+      {"f32", entry<float>()},
       {"f64", entry<double>()}, {"str", entry<std::string>()},
       {"Vi32", entry<std::vector<int32_t>>()}, {"Vstr", entry<std::vector<std::string>>()},
       {"Vf32", entry<std::vector<float>>()}, {"Vf64", entry<std::vector<double>>()},
